@@ -224,6 +224,63 @@ func checkC08(w *World, r *Report) {
 		r.Check(el.equal(isetOf('\r', '\n')), "R08.11", "isEndOfLine", token.NoPos, el.String(), "the line-break class is "+el.String()+", RFC 6020 has {CR, LF}")
 	})
 
+	r.Rule("R08.12", "indentation is removed up to and including the column of the opening quote: the test that ends the stripping of a continuation line is `columns so far >= quote column` (reaching the column exactly ends it; what follows, a tab included, is kept verbatim)", 1)
+	r.guard("R08.12", func() {
+		fd, fp := w.FuncDecl(w.Func("parse", "trimLeadWS"))
+		trimLen := paramObj(fp, fd, 1)
+		var found *ast.IfStmt
+		var counter types.Object
+		ast.Inspect(fd.Body, func(n ast.Node) bool {
+			is, ok := n.(*ast.IfStmt)
+			if !ok {
+				return true
+			}
+			be, ok := ast.Unparen(is.Cond).(*ast.BinaryExpr)
+			if !ok {
+				return true
+			}
+			for _, pair := range [][2]ast.Expr{{be.X, be.Y}, {be.Y, be.X}} {
+				if objOfIdent(fp, pair[1]) == trimLen && objOfIdent(fp, pair[0]) != nil {
+					found = is
+					counter = objOfIdent(fp, pair[0])
+				}
+			}
+			return true
+		})
+		if found == nil {
+			panic(undecided{"trimLeadWS: comparison of the column count with the quote column"})
+		}
+		ok, bad := true, ""
+		for _, c := range []struct{ ws, tl int64 }{{0, 3}, {2, 3}, {3, 3}, {4, 3}, {8, 3}, {8, 8}, {7, 8}} {
+			env := &guardEnv{p: fp, bind: map[types.Object]constant.Value{counter: constant.MakeInt64(c.ws), trimLen: constant.MakeInt64(c.tl)}}
+			if env.cond(found.Cond) != (c.ws >= c.tl) {
+				ok, bad = false, fmt.Sprintf("columns=%d, quote column=%d gives %v", c.ws, c.tl, !(c.ws >= c.tl))
+			}
+		}
+		r.Check(ok, "R08.12", "trimLeadWS stops at the quote column", found.Pos(), "stop iff columns >= quote column", "the stripping of a continuation line does not stop exactly when the quote column is reached ("+bad+"): a character sitting right after the indentation (e.g. a tab) is consumed or rewritten")
+	})
+
+	r.Rule("R08.13", "comments and blanks between the pieces of an argument never reach the argument grammar: raw tokens (which include separator items — a comment splits a run of blanks into two of them) are read only by the nextNonSpace / peekNonSpace helpers", 1)
+	r.guard("R08.13", func() {
+		next := w.Method("parse", "Tree", "next")
+		peek := w.TryMethod("parse", "Tree", "peek")
+		var callers []string
+		for _, f := range funcDecls(p) {
+			if isTestFile(w, f.Pos()) {
+				continue
+			}
+			n := len(allCallsTo(p, f.Body, next))
+			if peek != nil {
+				n += len(allCallsTo(p, f.Body, peek))
+			}
+			if n > 0 {
+				callers = append(callers, funcDeclName(f))
+			}
+		}
+		sort.Strings(callers)
+		r.Check(strings.Join(callers, ",") == "Tree.nextNonSpace,Tree.peekNonSpace", "R08.13", "readers of raw tokens", token.NoPos, strings.Join(callers, ","), "raw tokens (including separators) are read by {"+strings.Join(callers, ",")+"}: a hand-written skip of `one separator` fails when a comment between two pieces has blanks on both sides")
+	})
+
 	r.Rule("R08.8", "every line of a multi-line double-quoted string contributes to the result: in trimWhitespace's per-line loop the accumulation (result += line, or Builder.WriteString) dominates every way back to the loop head — no line (blank ones included) is skipped together with its line break", 1)
 	r.Rule("R08.9", "lines are decoded independently: apart from the result and the loop counter, no value computed from one line is carried into the next iteration of trimWhitespace's per-line loop (every other loop-carried variable re-enters the loop as a constant)", 1)
 	r.guard("R08.8", func() {
@@ -483,6 +540,97 @@ func checkC10(w *World, r *Report) {
 
 	r.Rule("R10.8", "equivalent quotings and comments decode alike: the column of the opening quote is counted in characters, so a non-ASCII character earlier on the line (in a comment or an earlier piece) does not change how continuation lines are de-indented", 1)
 	r.guard("R10.8", func() { c08QuoteColumn(w, r, "R10.8") })
+
+	r.Rule("R10.9", "the tree holds every statement of the text: after the top-level statement Tree.parse demands end of input (expect(itemEOF)) on every path to its normal return — text after the closing brace is an error, not something to drain away", 1)
+	r.guard("R10.9", func() {
+		f := w.SSAFunc(w.Method("parse", "Tree", "parse"))
+		if f == nil {
+			panic(undecided{"Tree.parse"})
+		}
+		eofV, ok := pkgConstInt(w, "parse", "itemEOF")
+		if !ok {
+			panic(undecided{"parse.itemEOF"})
+		}
+		var expBlock, stmtBlock *ssa.BasicBlock
+		for _, b := range f.Blocks {
+			for _, in := range b.Instrs {
+				c, ok := in.(*ssa.Call)
+				if !ok || c.Call.StaticCallee() == nil {
+					continue
+				}
+				switch c.Call.StaticCallee().Name() {
+				case "stmt":
+					stmtBlock = b
+				case "expect":
+					if k, ok := c.Call.Args[1].(*ssa.Const); ok && k.Value != nil {
+						if v, _ := constant.Int64Val(constant.ToInt(k.Value)); v == eofV {
+							expBlock = b
+						}
+					}
+				}
+			}
+		}
+		good := expBlock != nil && stmtBlock != nil && stmtBlock.Dominates(expBlock)
+		if good {
+			for _, b := range f.Blocks {
+				if _, isRet := b.Instrs[len(b.Instrs)-1].(*ssa.Return); isRet && !expBlock.Dominates(b) {
+					good = false
+				}
+			}
+		}
+		r.Check(good, "R10.9", "Tree.parse requires end of input after the top-level statement", f.Pos(), "stmt(…); expect(itemEOF) before every return", "the parser can return without having seen end of input: statements (or garbage) after the first top-level statement are silently dropped and the tree lacks source statements")
+	})
+
+	r.Rule("R10.10", "an unquoted word can start only where lexStmt has just looked for a comment opener: the state function lexString is handed out by exactly one return of lexStmt, the one that backs up over the character the dispatch tested (no other arm jumps into a word past a position where '//' or '/*' could begin)", 1)
+	r.guard("R10.10", func() {
+		f := w.SSAFunc(w.Func("parse", "lexStmt"))
+		ls := w.SSAFunc(w.Func("parse", "lexString"))
+		backup := w.SSAFunc(w.Method("parse", "lexer", "backup"))
+		if f == nil || ls == nil || backup == nil {
+			panic(undecided{"parse.lexStmt / lexString / lexer.backup"})
+		}
+		n, good := 0, true
+		for _, b := range f.Blocks {
+			ret, ok := b.Instrs[len(b.Instrs)-1].(*ssa.Return)
+			if !ok || len(ret.Results) != 1 {
+				continue
+			}
+			v := ret.Results[0]
+			if ct, ok := v.(*ssa.ChangeType); ok {
+				v = ct.X
+			}
+			if v != ssa.Value(ls) {
+				continue
+			}
+			n++
+			backs := false
+			for _, in := range b.Instrs {
+				if c, ok := in.(*ssa.Call); ok && c.Call.StaticCallee() == backup {
+					backs = true
+				}
+			}
+			if !backs {
+				good = false
+			}
+		}
+		// and nobody else hands it out
+		others := 0
+		for _, g := range allFuncs(f.Pkg) {
+			if g == f {
+				continue
+			}
+			for _, b := range g.Blocks {
+				for _, in := range b.Instrs {
+					for _, op := range in.Operands(nil) {
+						if *op == ssa.Value(ls) {
+							others++
+						}
+					}
+				}
+			}
+		}
+		r.Check(n == 1 && good && others == 0, "R10.10", "entries into lexString", f.Pos(), "one: the default arm of lexStmt, after backup()", fmt.Sprintf("lexString is entered from %d place(s) in lexStmt (backing up: %v) and %d elsewhere: a word can start at a position that was not checked for a comment opener, so a comment glued to the previous character (e.g. `+/* c */`) becomes part of a word", n, good, others))
+	})
 
 	r.Rule("R10.5", "line/column bookkeeping: the 'no earlier line break' test on the LastIndex result treats index 0 as found", 2)
 	r.guard("R10.5", func() {
